@@ -47,6 +47,7 @@ type vaCmd struct {
 	Chunk       int    `json:"chunk,omitempty"`         // reader chunk size (0 = as asked)
 	FailReadAt  int    `json:"fail_read_at,omitempty"`  // k-th Read call fails (1-based; 0 = never)
 	FailReadOff int    `json:"fail_read_off,omitempty"` // fail once this many bytes were delivered (-1/0 = never)
+	FailMode    string `json:"fail_mode,omitempty"`     // "" the source keeps failing; "once-eof" it fails once, then reports end of input; "once-continue" it fails once, then delivers the rest
 	FailWriteAt int    `json:"fail_write_at,omitempty"` // k-th Write call fails (1-based)
 	ShortWrite  int    `json:"short_write,omitempty"`   // failing write accepts this many bytes first
 	// atlas
@@ -70,17 +71,26 @@ type vaFailReader struct {
 	failAt    int
 	failOff   int
 	delivered int
+	mode      string
+	failed    bool
 }
 
 var errVAInjected = errors.New("verif: injected I/O fault")
 
 func (r *vaFailReader) Read(p []byte) (int, error) {
 	r.calls++
-	if r.failAt > 0 && r.calls >= r.failAt {
-		return 0, errVAInjected
+	if r.failed && r.mode == "once-eof" {
+		return 0, io.EOF
 	}
-	if r.failOff > 0 && r.delivered >= r.failOff {
-		return 0, errVAInjected
+	if !(r.failed && r.mode == "once-continue") {
+		if r.failAt > 0 && r.calls >= r.failAt {
+			r.failed = true
+			return 0, errVAInjected
+		}
+		if r.failOff > 0 && r.delivered >= r.failOff {
+			r.failed = true
+			return 0, errVAInjected
+		}
 	}
 	if r.off >= len(r.data) {
 		return 0, io.EOF
@@ -89,7 +99,7 @@ func (r *vaFailReader) Read(p []byte) (int, error) {
 	if r.chunk > 0 && n > r.chunk {
 		n = r.chunk
 	}
-	if r.failOff > 0 && r.delivered+n > r.failOff {
+	if r.failOff > 0 && r.delivered+n > r.failOff && !r.failed {
 		n = r.failOff - r.delivered
 	}
 	if n > len(r.data)-r.off {
@@ -262,7 +272,7 @@ func vaRun(c *vaCmd) (res map[string]any) {
 		}
 	case "stream":
 		data, _ := base64.StdEncoding.DecodeString(c.InputB64)
-		r := &vaFailReader{data: data, chunk: c.Chunk, failAt: c.FailReadAt, failOff: c.FailReadOff}
+		r := &vaFailReader{data: data, chunk: c.Chunk, failAt: c.FailReadAt, failOff: c.FailReadOff, mode: c.FailMode}
 		w := &vaRecWriter{failAt: c.FailWriteAt, short: c.ShortWrite}
 		var err error
 		if c.Gzip {
